@@ -10,14 +10,16 @@ Proof.
   - intros [<-|H]; [left; reflexivity|right; eapply IH; exact H].
 Qed.
 
-Lemma role_pool_sub p ents vents epoch rt cs cnodes n :
-  In n (role_pool p ents vents epoch rt cs cnodes) ->
-  In n cnodes /\ role_eligible p ents vents epoch rt cs n = true.
+Lemma role_pool_sub p ents vents epoch rt src cs cnodes n :
+  In n (role_pool p ents vents epoch rt src cs cnodes) ->
+  In n cnodes /\ role_eligible p ents vents epoch rt (src_haspi src) cs n = true.
 Proof.
   unfold role_pool. intros H.
-  assert (H0 : In n (filter (role_eligible p ents vents epoch rt cs) cnodes)).
+  assert (H0 : In n (filter (role_eligible p ents vents epoch rt (src_haspi src) cs) cnodes)).
   { destruct (c_max cs) as [lim|]; [|exact H].
-    destruct (0 <? lim); [eapply dedup_sub; exact H|exact H]. }
+    destruct (0 <? lim); [|exact H].
+    destruct src as [tbl|db eb]; apply dedup_sub in H; [exact H|].
+    apply vrf_sort_In in H. tauto. }
   apply filter_In in H0. exact H0.
 Qed.
 
@@ -57,15 +59,15 @@ Proof.
     + eapply IH; [exact H|exact Hsub'|]. intros lim' [=].
 Qed.
 
-Lemma elect_role_sound p ents vents epoch rt cs wanted cnodes tbl el :
-  elect_role p ents vents epoch rt cs wanted cnodes tbl = Some el ->
-  role_ok p ents vents epoch rt cs wanted cnodes el.
+Lemma elect_role_sound p ents vents epoch rt cs wanted cnodes src el :
+  elect_role p ents vents epoch rt cs wanted cnodes src = Some el ->
+  role_ok p ents vents epoch rt src cs wanted cnodes el.
 Proof.
   unfold elect_role, role_ok.
-  set (pool := role_pool p ents vents epoch rt cs cnodes).
+  set (pool := role_pool p ents vents epoch rt src cs cnodes).
   destruct (len pool <? min_pool cs) eqn:E1; [discriminate|].
   destruct (len pool <? wanted) eqn:E2; [discriminate|].
-  destruct (elect_loop cs wanted pool (nth (length pool) tbl []) [] []) as [el'|] eqn:El; [|discriminate].
+  destruct (elect_loop cs wanted pool (role_idxs src pool) [] []) as [el'|] eqn:El; [|discriminate].
   destruct (len el' =? wanted) eqn:E3; [|discriminate]. intros [= <-].
   destruct (elect_loop_sound _ _ _ _ _ _ _ El) as [H1 H2].
   - intros n [].
@@ -74,89 +76,196 @@ Proof.
     rewrite Forall_forall. intros n Hn. eapply role_pool_sub. apply H1. exact Hn.
 Qed.
 
-(* only eligible nodes, per-entity limit, exact sizes or no committee at all *)
-Theorem committee_sound fv p ents vents epoch rt cnodes tw tb ms :
-  elect_committee fv p ents vents epoch rt cnodes tw tb = Some ms ->
-  committee_ok fv p ents vents epoch rt cnodes ms.
+(* only eligible nodes, per-entity limit, exact sizes or no committee at all --
+   for the entropy tables AND for VRF sortition with any beta hashing *)
+Theorem committee_sound fv p ents vents epoch rt cnodes blocked sw sb ms :
+  elect_committee fv p ents vents epoch rt cnodes blocked sw sb = Some ms ->
+  committee_ok fv p ents vents epoch rt cnodes blocked sw sb ms.
 Proof.
   unfold elect_committee, committee_ok.
   destruct (r_suspended rt); [discriminate|].
   destruct (fv && negb (r_compute rt)) eqn:Ek; [discriminate|].
+  destruct blocked; [discriminate|].
   destruct (r_gsize rt =? 0) eqn:Eg; [discriminate|].
-  destruct (elect_role p ents vents epoch rt (r_cw rt) (r_gsize rt) cnodes tw) as [w|] eqn:Ew; [|discriminate].
+  destruct (elect_role p ents vents epoch rt (r_cw rt) (r_gsize rt) cnodes sw) as [w|] eqn:Ew; [|discriminate].
   apply elect_role_sound in Ew.
   intros H. split; [reflexivity|]. split; [intros ->; destruct (r_compute rt); [reflexivity|discriminate]|].
-  split; [lia|].
+  split; [reflexivity|]. split; [lia|].
   destruct (r_bsize rt =? 0) eqn:Eb.
   - injection H as <-. exists w, []. cbn [map]. rewrite app_nil_r. split; [reflexivity|]. split; [exact Ew|reflexivity].
-  - destruct (elect_role p ents vents epoch rt (r_cb rt) (r_bsize rt) cnodes tb) as [b|] eqn:Ebk; [|discriminate].
+  - destruct (elect_role p ents vents epoch rt (r_cb rt) (r_bsize rt) cnodes sb) as [b|] eqn:Ebk; [|discriminate].
     apply elect_role_sound in Ebk. injection H as <-. exists w, b.
     split; [reflexivity|]. split; [exact Ew|exact Ebk].
 Qed.
 
 (* ---------- what eligibility means ---------- *)
-Lemma suitable_rts_spec rt_id ver susp rts :
-  suitable_rts rt_id ver susp rts = true -> In (rt_id, ver, false) rts /\ susp = false.
+Lemma suitable_rts_spec rt_id ver hw susp rts :
+  suitable_rts rt_id ver hw susp rts = true ->
+  exists tee, In (rt_id, ver, tee) rts /\ tee_ok hw tee = true /\ susp = false.
 Proof.
   induction rts as [|[[id v] tee] r IH]; cbn [suitable_rts]; [discriminate|].
   destruct ((id =? rt_id) && (v =? ver)) eqn:E.
-  - destruct susp; [discriminate|]. intros H. split; [|reflexivity]. left.
-    assert (id = rt_id) by lia. assert (v = ver) by lia. subst. destruct tee; [discriminate|reflexivity].
-  - intros H. destruct (IH H) as [H1 H2]. split; [right; exact H1|exact H2].
+  - destruct susp; [discriminate|]. intros H. exists tee. split; [|split; [exact H|reflexivity]]. left.
+    assert (id = rt_id) by lia. assert (v = ver) by lia. subst. reflexivity.
+  - intros H. destruct (IH H) as [t [H1 H2]]. exists t. split; [right; exact H1|exact H2].
 Qed.
 
-Lemma role_eligible_spec p ents vents epoch rt cs n :
-  role_eligible p ents vents epoch rt cs n = true ->
+(* a runtime without TEE hardware takes only nodes without a TEE capability; a
+   TEE runtime only nodes with the same hardware and a verifying attestation *)
+Lemma tee_ok_spec hw tee :
+  tee_ok hw tee = true ->
+  (hw = 0 /\ tee = None) \/ (hw <> 0 /\ tee = Some (hw, true)).
+Proof.
+  unfold tee_ok. destruct (hw =? 0) eqn:E.
+  - destruct tee; [discriminate|]. intros _. left. split; [lia|reflexivity].
+  - destruct tee as [[h v]|]; [|discriminate]. intros H. right. split; [lia|].
+    assert (h = hw) by lia. subst. destruct v; [reflexivity|lia].
+Qed.
+
+Lemma role_eligible_spec p ents vents epoch rt haspi cs n :
+  role_eligible p ents vents epoch rt haspi cs n = true ->
   (p_bypass p = true \/ stake_ok ents (n_ent n) = true) /\
   has_role ROLE_COMPUTE n = true /\
-  (exists ver from, active_deployment epoch (r_deps rt) = Some (ver, from) /\
-                    In (r_id rt, ver, false) (n_rts n)) /\
+  (exists ver from tee, active_deployment epoch (r_deps rt) = Some (ver, from) /\
+                        In (r_id rt, ver, tee) (n_rts n) /\ tee_ok (r_tee rt) tee = true) /\
   suspended epoch (r_id rt) n = false /\
+  haspi n = true /\
   (c_vset cs = true -> In (n_ent n) vents).
 Proof.
   unfold role_eligible, suitable. intros H.
   apply andb_true_iff in H. destruct H as [H Hv].
+  apply andb_true_iff in H. destruct H as [H Hpi].
   apply andb_true_iff in H. destruct H as [Hs H].
   apply andb_true_iff in H. destruct H as [Hr H].
   split; [apply orb_true_iff; exact Hs|]. split; [exact Hr|].
   destruct (active_deployment epoch (r_deps rt)) as [[ver from]|] eqn:Ea; [|discriminate].
-  apply suitable_rts_spec in H. destruct H as [H1 H2].
-  split; [exists ver, from; split; [reflexivity|exact H1]|]. split; [exact H2|].
+  apply suitable_rts_spec in H. destruct H as [tee [H1 [H2 H3]]].
+  split; [exists ver, from, tee; split; [reflexivity|split; assumption]|]. split; [exact H3|].
+  split; [exact Hpi|].
   intros Hc. rewrite Hc in Hv. cbn [negb orb] in Hv. unfold memN in Hv.
   apply existsb_exists in Hv. destruct Hv as [x [Hx Ex]]. assert (x = n_ent n) by lia. subst. exact Hx.
 Qed.
 
 (* every committee member is a registered, unexpired, unfrozen node with the
-   compute role, a deployment of the active runtime version, not suspended,
-   whose entity's escrow covers its claims and, under the validator-set
-   constraint, whose entity is in the validator set *)
-Theorem committee_members_eligible fv p ents vents epoch rt nodes tw tb ms role id :
-  elect_committee fv p ents vents epoch rt (live_nodes epoch nodes) tw tb = Some ms ->
+   compute role, a deployment of the active runtime version with the right TEE
+   capability, not suspended, with a VRF proof when sortition is used, whose
+   entity's escrow covers its claims and, under the validator-set constraint,
+   whose entity is in the validator set *)
+Theorem committee_members_eligible fv p ents vents epoch rt nodes cnodes blocked sw sb ms role id :
+  (forall n, In n cnodes -> In n (live_nodes epoch nodes)) ->
+  elect_committee fv p ents vents epoch rt cnodes blocked sw sb = Some ms ->
   In (role, id) ms ->
-  exists n cs,
+  exists n cs src,
     In n nodes /\ n_id n = id /\ n_freeze n = 0 /\ epoch <= n_exp n /\
-    ((role = ROLE_WORKER /\ cs = r_cw rt) \/ (role = ROLE_BACKUP /\ cs = r_cb rt)) /\
+    ((role = ROLE_WORKER /\ cs = r_cw rt /\ src = sw) \/ (role = ROLE_BACKUP /\ cs = r_cb rt /\ src = sb)) /\
     (p_bypass p = true \/ stake_ok ents (n_ent n) = true) /\
     has_role ROLE_COMPUTE n = true /\
-    (exists ver from, active_deployment epoch (r_deps rt) = Some (ver, from) /\
-                      In (r_id rt, ver, false) (n_rts n)) /\
+    (exists ver from tee, active_deployment epoch (r_deps rt) = Some (ver, from) /\
+                          In (r_id rt, ver, tee) (n_rts n) /\ tee_ok (r_tee rt) tee = true) /\
     suspended epoch (r_id rt) n = false /\
+    src_haspi src n = true /\
     (c_vset cs = true -> In (n_ent n) vents).
 Proof.
-  intros H Hin. apply committee_sound in H.
-  destruct H as [_ [_ [_ [w [b [-> [Hw Hb]]]]]]].
-  assert (Hgen : forall cs wanted el n,
-             role_ok p ents vents epoch rt cs wanted (live_nodes epoch nodes) el -> In n el ->
+  intros Hsub H Hin. apply committee_sound in H.
+  destruct H as [_ [_ [_ [_ [w [b [-> [Hw Hb]]]]]]]].
+  assert (Hgen : forall src cs wanted el n,
+             role_ok p ents vents epoch rt src cs wanted cnodes el -> In n el ->
              In n nodes /\ n_freeze n = 0 /\ epoch <= n_exp n /\
-             role_eligible p ents vents epoch rt cs n = true).
-  { intros cs wanted el n [_ [Hall _]] Hn. rewrite Forall_forall in Hall.
-    destruct (Hall n Hn) as [H1 H2]. apply live_nodes_spec in H1. destruct H1 as [H1 H3].
+             role_eligible p ents vents epoch rt (src_haspi src) cs n = true).
+  { intros src cs wanted el n [_ [Hall _]] Hn. rewrite Forall_forall in Hall.
+    destruct (Hall n Hn) as [H1 H2]. apply Hsub in H1. apply live_nodes_spec in H1. destruct H1 as [H1 H3].
     apply live_spec in H3. tauto. }
   apply in_app_or in Hin. destruct Hin as [Hin|Hin]; apply in_map_iff in Hin; destruct Hin as [n [E Hn]];
     injection E as <- <-.
-  - destruct (Hgen _ _ _ _ Hw Hn) as [H1 [H2 [H3 H4]]]. apply role_eligible_spec in H4.
-    exists n, (r_cw rt). repeat split; tauto.
+  - destruct (Hgen _ _ _ _ _ Hw Hn) as [H1 [H2 [H3 H4]]]. apply role_eligible_spec in H4.
+    exists n, (r_cw rt), sw. repeat split; tauto.
   - destruct (r_bsize rt =? 0); [subst b; contradiction|].
-    destruct (Hgen _ _ _ _ Hb Hn) as [H1 [H2 [H3 H4]]]. apply role_eligible_spec in H4.
-    exists n, (r_cb rt). repeat split; tauto.
+    destruct (Hgen _ _ _ _ _ Hb Hn) as [H1 [H2 [H3 H4]]]. apply role_eligible_spec in H4.
+    exists n, (r_cb rt), sb. repeat split; tauto.
+Qed.
+
+Lemma committee_nodes_live i nodes n :
+  In n (committee_nodes i nodes) -> In n (live_nodes (i_epoch i) nodes).
+Proof.
+  unfold committee_nodes. destruct (i_vrf i) as [v|]; [|tauto].
+  destruct (v_weak v); [tauto|]. rewrite filter_In. tauto.
+Qed.
+
+(* ---------- the boolean committee checker ---------- *)
+Lemma lookup_all_In ids l : forall ns, lookup_all ids l = Some ns -> Forall (fun n => In n l) ns.
+Proof.
+  induction ids as [|id r IH]; intros ns; cbn [lookup_all].
+  - intros [= <-]. constructor.
+  - unfold find_node. destruct (find (fun n => n_id n =? id) l) as [n|] eqn:Ef; [|discriminate].
+    destruct (lookup_all r l) as [ns'|]; [|discriminate]. intros [= <-].
+    constructor; [|apply IH; reflexivity]. apply find_some in Ef. tauto.
+Qed.
+
+Lemma count_node_zero_or_in e el :
+  count_node_ent e el = 0 \/ exists n, In n el /\ n_ent n = e.
+Proof.
+  unfold count_node_ent. destruct (filter (fun n => n_ent n =? e) el) as [|n r] eqn:E.
+  - left. reflexivity.
+  - right. exists n. assert (H : In n (filter (fun n => n_ent n =? e) el)) by (rewrite E; left; reflexivity).
+    apply filter_In in H. destruct H as [H1 H2]. split; [exact H1|lia].
+Qed.
+
+Lemma role_ok_b_sound p ents vents epoch rt src cs wanted cnodes el :
+  Forall (fun n => In n cnodes) el ->
+  role_ok_b p ents vents epoch rt src cs wanted cnodes el = true ->
+  role_ok p ents vents epoch rt src cs wanted cnodes el.
+Proof.
+  unfold role_ok_b, role_ok. intros Hin H.
+  apply andb_true_iff in H. destruct H as [H Hmin].
+  apply andb_true_iff in H. destruct H as [H Hmax].
+  apply andb_true_iff in H. destruct H as [Hlen Hel].
+  split; [lia|]. split; [|split; [|lia]].
+  - rewrite Forall_forall in *. intros n Hn. split; [apply Hin; exact Hn|].
+    rewrite forallb_forall in Hel. apply Hel. exact Hn.
+  - intros lim Hl e. rewrite Hl in Hmax.
+    destruct (count_node_zero_or_in e el) as [->|[n [Hn <-]]]; [lia|].
+    rewrite forallb_forall in Hmax. specialize (Hmax n Hn). lia.
+Qed.
+
+Lemma list_eqb_pair_eq' (a b : list (N * N)) : list_eqb pair_eqb a b = true -> a = b.
+Proof.
+  revert b. induction a as [|[x y] a IH]; intros [|[x' y'] b]; cbn [list_eqb]; try discriminate; [reflexivity|].
+  intros H. apply andb_true_iff in H. destruct H as [H1 H2]. unfold pair_eqb in H1. cbn [fst snd] in H1.
+  rewrite (IH _ H2). f_equal. f_equal; lia.
+Qed.
+
+(* whatever committee passes the checker satisfies the relational statement *)
+Theorem committee_ok_b_sound fv p ents vents epoch rt cnodes blocked sw sb ms :
+  committee_ok_b fv p ents vents epoch rt cnodes blocked sw sb ms = true ->
+  committee_ok fv p ents vents epoch rt cnodes blocked sw sb ms.
+Proof.
+  unfold committee_ok_b, committee_ok. intros H.
+  apply andb_true_iff in H. destruct H as [H Hm].
+  apply andb_true_iff in H. destruct H as [H Hg].
+  apply andb_true_iff in H. destruct H as [H Hb].
+  apply andb_true_iff in H. destruct H as [Hs Hc].
+  split; [destruct (r_suspended rt); [discriminate|reflexivity]|].
+  split; [intros ->; cbn [negb orb] in Hc; exact Hc|].
+  split; [destruct blocked; [discriminate|reflexivity]|]. split; [lia|].
+  destruct (lookup_all (map snd (filter (fun m => fst m =? ROLE_WORKER) ms)) cnodes) as [w|] eqn:Ew; [|discriminate].
+  destruct (lookup_all (map snd (filter (fun m => fst m =? ROLE_BACKUP) ms)) cnodes) as [b|] eqn:Eb; [|discriminate].
+  apply lookup_all_In in Ew. apply lookup_all_In in Eb.
+  apply andb_true_iff in Hm. destruct Hm as [Hm Hbk].
+  apply andb_true_iff in Hm. destruct Hm as [Heq Hw].
+  exists w, b. split; [apply list_eqb_pair_eq'; exact Heq|].
+  split; [apply role_ok_b_sound; assumption|].
+  destruct (r_bsize rt =? 0).
+  - destruct b; [reflexivity|]. rewrite len_cons in Hbk. lia.
+  - apply role_ok_b_sound; assumption.
+Qed.
+
+Theorem comms_ok_b_sound fv p ents vents epoch cnodes blocked : forall rts srcs outs,
+  comms_ok_b fv p ents vents epoch cnodes blocked rts srcs outs = true ->
+  comms_ok fv p ents vents epoch cnodes blocked rts srcs outs.
+Proof.
+  induction rts as [|rt r IH]; intros srcs [|[id oc] o]; cbn [comms_ok_b comms_ok]; try discriminate; [tauto|].
+  intros H. apply andb_true_iff in H. destruct H as [H Hr].
+  apply andb_true_iff in H. destruct H as [Hid Hc].
+  split; [lia|]. split; [|apply IH; exact Hr].
+  destruct oc as [ms|]; [|exact I]. apply committee_ok_b_sound. exact Hc.
 Qed.
